@@ -126,6 +126,15 @@ def setP (strict : Bool) (accepts : Nat → Val → Except Err Unit) :
     | none => if k = .group then .error .key else .error .attr         -- obj = None ⇒ setattr(None, …)
   | _, _ :: _ :: _, _ => .error .attr
 
+/-- a history of assignments on one processor, in order (stops at the first refused one) -/
+def setAll (strict : Bool) (accepts : Nat → Val → Except Err Unit) :
+    Tree → List (List String × Val) → Except Err Tree
+  | t, [] => .ok t
+  | t, (p, v) :: rest =>
+    match setP strict accepts t p v with
+    | .ok t' => setAll strict accepts t' rest
+    | .error e => .error e
+
 /-! ### `Observation.validate_steps` (one step) -/
 
 /-- Python truthiness -/
